@@ -94,6 +94,25 @@ def run(ctx) -> None:
                 grp_loop = lp
                 break
         if grp_loop is None:
+            # the grouping may have moved into a helper: it must still be computed afresh for every batch (R25b)
+            from ..util import value_leaves
+            stale = None
+            for lp in loops:
+                it = lp.iter
+                if isinstance(it, ast.Call) and call_attr(it) == "items" and isinstance(it.func, ast.Attribute) and isinstance(it.func.value, ast.Call):
+                    for leaf, lf in value_leaves(ctx.res, it.func.value, f):
+                        fresh = (isinstance(leaf, ast.Dict) and not leaf.keys) or (
+                            isinstance(leaf, ast.Call) and call_attr(leaf) in ("dict", "defaultdict", "OrderedDict"))
+                        if not fresh and not (isinstance(leaf, ast.Constant) and leaf.value is None):
+                            stale = (lp, leaf, lf)
+            if stale is not None:
+                lp, leaf, lf = stale
+                ctx.rule("R25b", "grouping per call, complete, order preserving")
+                ctx.fail("R25b", f, lp.iter, f"{name}: the per-layer grouping is computed for this batch",
+                         f"the grouping handed to the dispatch loop can come from `{norm(leaf)}` ({lf.short}) - a grouping kept from an "
+                         "earlier batch: its register order (and membership) is that of the earlier batch while the values follow the "
+                         "current one, so values reach the wrong registers of a layer")
+                continue
             raise AnchorError(f"{name}: grouping loop over the parameter(s) {params} not found")
         tvars = [norm(t) for t in (grp_loop.target.elts if isinstance(grp_loop.target, ast.Tuple) else [grp_loop.target])]
         rvar = tvars[-1]
